@@ -39,6 +39,13 @@ func markupBase(v ssa.Value, pkg string) bool {
 }
 
 func cachePairsOf(P *Program, fn *ssa.Function, pkg string) (pairs []cachePair, lone []*ssa.Store) {
+	return cachePairsVia(P, fn, pkg, nil)
+}
+
+// cachePairsVia: as cachePairsOf; with a delegate `inner`, result #0 of
+// inner(…, w) counts as a rendering at w (that inner ends in a wrap at its
+// width parameter is C15.R1's business).
+func cachePairsVia(P *Program, fn *ssa.Function, pkg string, inner *ssa.Function) (pairs []cachePair, lone []*ssa.Store) {
 	wrap := P.Func("servitor/ansi", "Wrap")
 	dumb := P.Func("servitor/ansi", "DumbWrap")
 	for _, b := range fn.Blocks {
@@ -65,11 +72,19 @@ func cachePairsOf(P *Program, fn *ssa.Function, pkg string) (pairs []cachePair, 
 				if sc := call.Call.StaticCallee(); sc != nil && (sc == wrap || sc == dumb) {
 					p.wrapOK = true
 					p.w = call.Call.Args[1]
-					a, b := unwrapLoad(p.w), unwrapLoad(widths[0].Val)
-					ka, okA := constInt(a)
-					kb, okB := constInt(b)
-					p.same = a == b || (okA && okB && ka == kb)
 				}
+			}
+			if ex, ok := unwrapLoad(texts[0].Val).(*ssa.Extract); ok && ex.Index == 0 && inner != nil {
+				if call, ok := ex.Tuple.(*ssa.Call); ok && call.Call.StaticCallee() == inner && len(call.Call.Args) > 0 {
+					p.wrapOK = true
+					p.w = call.Call.Args[len(call.Call.Args)-1]
+				}
+			}
+			if p.wrapOK {
+				a, b := unwrapLoad(p.w), unwrapLoad(widths[0].Val)
+				ka, okA := constInt(a)
+				kb, okB := constInt(b)
+				p.same = a == b || (okA && okB && ka == kb)
 			}
 			pairs = append(pairs, p)
 			continue
@@ -149,33 +164,7 @@ func c15SelfR2(c *Ctx, m *markupImpl) {
 				}
 			}
 		} else {
-			paths, complete := enumeratePaths(r, b, 512)
-			if !complete || len(paths) == 0 {
-				okRet, why = false, "the paths through Render could not be enumerated"
-			}
-			for _, pf := range paths {
-				stored, refreshed := false, false
-				for _, pb := range pf.blocks {
-					if storing[pb] {
-						stored = true
-						refreshed = good[pb] // the last store on the path counts
-					}
-				}
-				tested := false
-				for _, f := range pf.facts {
-					cmp, ok := f.Cmp()
-					if !ok || cmp.Op != token.EQL {
-						continue
-					}
-					if (isField(cmp.X, "cachedWidth") && unwrapLoad(cmp.Y) == ssa.Value(width)) || (isField(cmp.Y, "cachedWidth") && unwrapLoad(cmp.X) == ssa.Value(width)) {
-						tested = true
-					}
-				}
-				if !(refreshed || (tested && !stored)) {
-					okRet = false
-					why = "the cached rendering is returned on a path (lines " + pathLines(P, pf) + ") that neither knows cachedWidth == width nor has just rendered at the requested width"
-				}
-			}
+			okRet, why = cachedReturnOnPaths(P, r, b, isField, width, storing, good)
 		}
 		c.check(okRet, rname+"/return:cached", P.InstrPos(ret), rname, "the cache is returned only for the width it holds: tested, or just filled for the requested width", why)
 	}
@@ -316,4 +305,37 @@ func c15SelfR3(c *Ctx, m *markupImpl, E *Effects) {
 		}
 	})
 	c.check(okReads, fname+"/cache-reads", P.Pos(fn.Pos()), fname, "the cache pair is read for the width test and the return only", "a new rendering depends on an earlier one: "+whyReads)
+}
+
+// cachedReturnOnPaths: Render returns the cache at the end of block b. On
+// every path there, either a pair of stores for the requested width was made
+// last, or the path has tested cachedWidth == width and stores nothing.
+func cachedReturnOnPaths(P *Program, r *ssa.Function, b *ssa.BasicBlock, isField func(ssa.Value, string) bool, width ssa.Value, storing, good map[*ssa.BasicBlock]bool) (bool, string) {
+	paths, complete := enumeratePaths(r, b, 512)
+	if !complete || len(paths) == 0 {
+		return false, "the paths through Render could not be enumerated"
+	}
+	for _, pf := range paths {
+		stored, refreshed := false, false
+		for _, pb := range pf.blocks {
+			if storing[pb] {
+				stored = true
+				refreshed = good[pb] // the last store on the path counts
+			}
+		}
+		tested := false
+		for _, f := range pf.facts {
+			cmp, ok := f.Cmp()
+			if !ok || cmp.Op != token.EQL {
+				continue
+			}
+			if (isField(cmp.X, "cachedWidth") && unwrapLoad(cmp.Y) == width) || (isField(cmp.Y, "cachedWidth") && unwrapLoad(cmp.X) == width) {
+				tested = true
+			}
+		}
+		if !(refreshed || (tested && !stored)) {
+			return false, "the cached rendering is returned on a path (lines " + pathLines(P, pf) + ") that neither knows cachedWidth == width nor has just rendered at the requested width"
+		}
+	}
+	return true, ""
 }
